@@ -88,7 +88,19 @@ fn main() {
             let one = game.solve(method, t, thresh, 1, params);
             let many = game.solve(method, t, thresh, k, params);
             match (one, many) {
-                (Ok((a, ba)), Ok((b, bb))) => Ok((diff(&named(&a), &named(&b)), ba.regret_bound(), bb.regret_bound(), b.get_info().regret())),
+                (Ok((a, ba)), Ok((b, bb))) => {
+                    for (label, s) in [("1 thread", &a), ("K threads", &b)] {
+                        for (p, pl) in named(s).iter().enumerate() {
+                            for (i, m) in pl {
+                                let tot: f64 = m.values().sum();
+                                if m.is_empty() || !((tot - 1.0).abs() < 1e-9) {
+                                    println!("MALFORMED ({label}): player {} infoset {i:?} -> {m:?}", p + 1);
+                                }
+                            }
+                        }
+                    }
+                    Ok((diff(&named(&a), &named(&b)), ba.regret_bound(), bb.regret_bound(), b.get_info().regret()))
+                }
                 (a, b) => Err(format!("{:?} / {:?}", a.err(), b.err())),
             }
         }));
